@@ -42,14 +42,19 @@ def __getattr__(name):
     def _(*args, **kwargs):
         # Without axes, scipy applies `s` to the last len(s) axes; dask's wrapper
         # would take the first ones.
-        if name.endswith("fftn"):
+        if name.endswith(("fft2", "fftn")):
+            default_axes = (-2, -1) if name.endswith("fft2") else None
             s = kwargs.get("s", args[1] if len(args) > 1 else None)
-            axes = kwargs.get("axes", args[2] if len(args) > 2 else None)
+            axes = kwargs.get("axes", args[2] if len(args) > 2 else default_axes)
             # scipy takes a single length / axis as a plain integer, too
             s = (s,) if isinstance(s, numbers.Integral) else s
             axes = (axes,) if isinstance(axes, numbers.Integral) else axes
             if s is not None and axes is None:
                 axes = tuple(range(-len(s), 0))
+            if s is not None:
+                # -1 stands for the whole input along that axis (dask would
+                # take it for the length of the result)
+                s = tuple(args[0].shape[a] if n == -1 else n for n, a in zip(s, axes))
             args = (args[0], s, axes) + tuple(args[3:])
             kwargs = {k: v for k, v in kwargs.items() if k not in ("s", "axes")}
 
